@@ -187,7 +187,16 @@ def history_runs(ctx):
         out += [(sqlparse.split(b), [streams.sexp(s) for s in sqlparse.parse(b)], sqlparse.format(b, keyword_case='upper')) for b in BPROBES]
         out.append([(str(tt), v) for tt, v in lexer.tokenize(BPROBES[1])])
         return out
+    def interp_state():
+        # process-wide interpreter state a library call has no business changing (and on which later calls' outcomes depend: the recursion limit
+        # decides which nesting depth still parses)
+        import gc, locale, decimal
+        return {'recursionlimit': sys.getrecursionlimit(), 'switchinterval': sys.getswitchinterval(), 'cwd': os.getcwd(), 'sys.path': len(sys.path),
+                'gc': gc.isenabled(), 'locale': locale.setlocale(locale.LC_ALL, None), 'decimal.prec': decimal.getcontext().prec,
+                'stdout': id(sys.stdout), 'stderr': id(sys.stderr), 'environ': len(os.environ)}
     base = probe()
+    base_state = interp_state()
+    alive = []
     g = grammar.Gen(rng)
     def op_parse(): sqlparse.parse(gen.mixed(rng))
     def op_split(): sqlparse.split(gen.mixed(rng))
@@ -197,6 +206,9 @@ def history_runs(ctx):
     def op_abandon():
         it = sqlparse.parsestream(io.StringIO("select 1; select 2; select 3"))
         next(it)
+        if rng.random() < 0.5:
+            alive.append(it)        # suspended and kept: whatever the generator holds or has changed "until it finishes" stays that way
+            del alive[:-4]
         del it
     def op_raise_opt():
         try:
@@ -316,6 +328,11 @@ def history_runs(ctx):
         ctx.nontrivial.add(tuple(o.__name__ for o in hist))
         for o in hist:
             ctx.count('op:' + o.__name__)
+        st = interp_state()
+        if st != base_state:
+            ctx.fail('process-wide interpreter state changed by library calls: ' + ', '.join(k for k in st if st[k] != base_state[k]), [o.__name__ for o in hist],
+                     observed=str({k: st[k] for k in st if st[k] != base_state[k]}), required=str({k: base_state[k] for k in st if st[k] != base_state[k]}))
+            break
         now = probe()
         if now != base:
             ctx.fail('results of probe calls depend on the call history', [o.__name__ for o in hist], observed=str(now)[:300], required=str(base)[:300])
